@@ -461,7 +461,52 @@ def bounded_emitted_kinds(tier, seed):
             "exhaustive": False, "failures": failures}
 
 
-BOUNDED = [bounded_field_sets, bounded_emitted_models, bounded_emitted_models_random, bounded_emitted_kinds]
+def bounded_one_model_per_schema(tier, seed):
+    """"exactly one model": among the emitted classes and aliases, the definitions named after a declared schema (its class name, also with the escaping underscore
+    or a numeric de-collision suffix) are not more numerous than the declared schemas that share that name"""
+    import os
+    import re
+    import shutil
+    from props import corpus, gen_harness as G
+    from pyopenapi_gen.core.utils import NameSanitizer
+    C = corpus
+    docs = [(n, d) for n, f, d in corpus.shapes(tier, seed) if f.get("random_doc") or n in ("primitive-alias-names", "mutual-object-refs")][: (6 if tier == "quick" else 70)]
+    docs.append(("local:dashed-name", C.doc("FB", [C.op("/a", "get", "getA", ["t"], responses={"200": C.resp_json(C.ref("Foo-Bar"))}),
+                                                    C.op("/b", "get", "getB", ["t"], responses={"200": C.resp_json(C.ref("Plain"))})],
+                                            {"Foo-Bar": C.obj({"x": C.PRIMS["str"]}), "Plain": C.obj({"y": C.PRIMS["int"]})})))
+
+    def base(nm):
+        return re.sub(r"(_|\d+)$", "", nm)
+    failures, n = [], 0
+    for name, d in docs:
+        schemas = d["components"]["schemas"]
+        root = G.scratch("c02o")
+        try:
+            if G.generate(d, root, "cli") is not None:
+                continue
+            models = _emitted_models(os.path.join(root, "cli"))
+            emitted = [k for k in models if k != "__aliases__"] + list(models.get("__aliases__", {}))
+            declared = {}
+            for sname in schemas:
+                declared.setdefault(base(NameSanitizer.sanitize_class_name(sname)), []).append(sname)
+            for b, snames in sorted(declared.items()):
+                n += 1
+                defs = sorted(e for e in emitted if base(e) == b and (e == b or re.fullmatch(re.escape(b) + r"(_|\d+|_\d+)", e)))
+                if len(defs) > len(snames):
+                    failures.append({"id": f"bounded:one-model-per-schema:{name}:{b}", "detail": f"{name}: schema(s) {snames} -> {len(defs)} definitions {defs}",
+                                     "input": {"document": name, "schemas": snames, "definitions": defs}})
+        finally:
+            shutil.rmtree(root, ignore_errors=True)
+    return {"function": "emitted classes / aliases named after a declared schema vs. the declared schemas of that name", "backend": "bounded",
+            "bound": f"{len(docs)} documents, {n} declared names", "evaluations": n, "distinct_nontrivial": n, "exhaustive": False, "failures": failures}
+
+
+def _witness_emitted_twice(k):
+    r = bounded_one_model_per_schema("quick", 1)
+    return any(f["id"].endswith(":local:dashed-name:FooBar") for f in r["failures"])
+
+
+BOUNDED = [bounded_field_sets, bounded_emitted_models, bounded_emitted_models_random, bounded_emitted_kinds, bounded_one_model_per_schema]
 
 MANIFEST = {
     "category": "other",
@@ -489,4 +534,5 @@ def _witness_enum_overwritten(k):
     return sorted(load_ir_from_spec(d2).schemas["Level"].enum or []) != [-1, 0, 1, 2]
 
 
-WITNESS = {"F-C02-cyclic-schema-loses-fields": _witness_cycle, "F-C02-declared-enum-overwritten": _witness_enum_overwritten}
+WITNESS = {"F-C02-cyclic-schema-loses-fields": _witness_cycle, "F-C02-declared-enum-overwritten": _witness_enum_overwritten,
+           "F-C02-schema-emitted-twice": _witness_emitted_twice}
